@@ -806,6 +806,25 @@ pub fn execute(ctx: &mut Ctx, lines: &[String]) -> Vec<String> {
                                 }
                             }
                         }
+                    }
+                    // oracle C13 (brace targets with `_Default` in the list, whatever else is named): the
+                    // default channel gets the record iff the spec enables it for the record's MODULE path
+                    // (and the text filter matches) — unknown or other names do not disturb that
+                    if prop == "C13" && tg.starts_with('{') && tg.ends_with('}') && tg.len() >= 2 && l <= lfn(log::max_level()) {
+                        let inner = &tg[1..tg.len() - 1];
+                        if inner.split(',').any(|n| n == "_Default") {
+                            if let Some((fs, rx)) = &intended {
+                                if let Some(sl) = spec_level(fs, module.as_deref().unwrap_or("")) {
+                                    let want = l <= sl && rx.as_ref().map_or(true, |x| regex::Regex::new(x).unwrap().is_match(&msg));
+                                    if default != want {
+                                        ctx.report.fail(&case_id, "brace-default-iff-enabled", &format!(
+                                            "line {li}: target {tg:?} module {module:?} level {l}: spec {} regex {rx:?}: default channel written={default}, expected {want}", filters_str(fs)));
+                                    }
+                                }
+                            }
+                        }
+                    }
+                    if !tg.starts_with('{') {
                         // gate never hides an accepted record
                         if default && l > lfn(log::max_level()) {
                             ctx.report.fail(&case_id, "gate-hides-record", &format!(
